@@ -19,10 +19,10 @@ NOTES["C07"] = dict(
           "remove_duplicates (with the exact drop rule), transpose (image transposed, dims swapped), add and subtract preserve the dense image; "
           "well-formedness and order postconditions; chains by composition. The executable model is output-equal (all index/value arrays and "
           "flags) to the real Matrix classes on generated matrices and conversion chains; the dense-image predicate is also evaluated on the "
-          "implementation's output. Sequential classes only at this commit (distributed counterparts: see notes). " 
+          "implementation's output. " 
           "Distributed and block part (harness h_c07p): ParCOO/ParCSR/ParCSC conversion chains, copies, transposes, add/subtract of operands with different halo sets, ParCSR->ParBSR->ParCSR with block sizes 1..3 on partitions aligned with the blocks; every result gathered as global scalar triplets and compared with the dense image, global dimensions and row partition; lifting lemmas for block-wise operations in Props/C07Par.lean when present."),
     note=("Trusted: Lean kernel + standard axioms; hand-written model tied by correspondence (ASan build); std::sort tie order canonicalised; "
-          "integer-valued doubles; block formats and distributed conversions not yet covered."),
+          "integer-valued doubles; block formats (BCOO/BSR/BSC) and the distributed classes are checked against the specification clauses (operator, dimensions, partition, well-formedness) with lifting lemmas in Props/C07Par.lean, not array by array."),
     technique="Lean 4 proof (permutation/bucketing lemmas) on an executable model; array-level model/implementation correspondence",
 )
 NOTES["C02"] = dict(
@@ -52,7 +52,7 @@ NOTES["C06"] = dict(
     note=("Props/C06Par.lean lifts the value theorem to the distributed product for every row partition (empty blocks included): the products "
           "generated from the on-process and off-process parts of a row against the rows a rank holds are those of the row in global numbering "
           "(rowProducts_split), the product of a row block is the block of the product (par_rows, par_rows_indep, par_den), and for A^T B the "
-          "contributions of the ranks add up to the global sum (parT_den, parT_indep). Trusted: Lean kernel + standard axioms; exact arithmetic; "
+          "contributions of the ranks add up to the global sum (parT_den, parT_indep); Props/C06Halo.lean composes this with C03's exchange theorem: the receive buffer of the row exchange is exactly the owners' rows (exchange_rows_eq_heldRows, par_row_received). Trusted: Lean kernel + standard axioms; exact arithmetic; "
           "that the fetched rows of B are the owners' rows is C03's theorem, their transport is validated per input."),
     technique="Lean 4 proof (sums over association lists) on an executable model; array-level and dense-image correspondence",
 )
@@ -113,7 +113,7 @@ NOTES["C09"] = dict(
           "bit-identical outputs anywhere in the history; b, the user's matrix and the hierarchy (hash) must be unchanged; linearity, fixed "
           "point and single-level exactness are also evaluated on the implementation's outputs. " 
           "The sequential classes (Multilevel, RugeStubenSolver, SmoothedAggregationSolver) run through the same checks on one process."),
-    note="Partial: rounding; LAPACK assumed to solve the system it is given (the driver uses its own elimination); sequential Multilevel classes not yet in the harness.",
+    note="Partial: rounding; LAPACK assumed to solve the system it is given (the driver uses its own elimination); the sequential Multilevel / RugeStubenSolver / SmoothedAggregationSolver classes run through the same histories on one process.",
     technique="Lean 4 proof (list model + abstract linear maps) ; operation-sequence correspondence at double precision",
 )
 NOTES["C01"] = dict(
@@ -158,7 +158,7 @@ NOTES["C17"] = dict(
           "guess, tolerances, limits, layouts with empty ranks); every iterate is recovered by re-running with max_iter = k and the driver "
           "recomputes its true residual, evaluates the stop rule, compares with the Float model, and checks dot/norm on vectors with NaN/Inf. " 
           "Preconditioned CG: history (r_k, M r_k)/(b, M b) against the same quantity recomputed from the true residual of x_k (x_k by re-running with max_iter = k, crossing the periodic residual recomputation at iteration 8), prefix purity, stop rule."),
-    note="Partial: rounding drift (1e-6 relative); PCG's mixed residual scaling is not checked (only its use as history perturbation in C09).",
+    note="Partial: rounding drift (1e-6 relative); preconditioned CG: Model/Pcg.lean + Props/C17Pcg.lean, history against the true preconditioned residual.",
     technique="Lean 4 proof of the recurrences and stop logic on an executable model; iterate-level correspondence with independent residuals",
 )
 
@@ -193,7 +193,7 @@ NOTES["C12"] = dict(
           "specification (injection, support incl. distance two for extended, finiteness, constants) is evaluated on the outputs of all three "
           "sequential and distributed routines, and the gathered distributed operator is compared with the real sequential operator built "
           "from the same matrix, strength pattern and splitting on every layout."),
-    note="Extended+i interpolation has an executable model (Interp.extended) compared with the real sequential routine; its theorems are in Props/C12Ext.lean when present, otherwise specification predicates only. Truncation is checked against its definition applied to the untruncated operator. Rows touching the distributed-only NoNeighbors label are outside the par = seq comparison; open finding: weak couplings to NoNeighbors points are not lumped by the distributed routines.",
+    note="Extended+i interpolation has an executable model (Interp.extended) compared with the real sequential routine; its theorems are in Props/C12Ext.lean. Truncation is checked against its definition applied to the untruncated operator. Rows touching the distributed-only NoNeighbors label are outside the par = seq comparison; open finding: weak couplings to NoNeighbors points are not lumped by the distributed routines.",
     technique="Lean 4 proof on executable models of direct / modified classical interpolation; Float correspondence; spec evaluation on outputs",
 )
 NOTES["C15"] = dict(
